@@ -576,12 +576,37 @@ func callSSA(i *interpreter, caller *frame, callpos token.Pos, fn *ssa.Function,
 		// length and offset computed from the result is concrete.
 		if len(args) == 1 && (strings.HasPrefix(fn.Name(), "sov") || fn.Name() == "Sov") && isSovSig(fn) {
 			if sx, ok := args[0].(symInt); ok {
-				for n := 1; n < 10; n++ {
-					if i.decide(i.tc.Lt(sx.t, i.tc.Const(new(big.Int).Lsh(bigOne, uint(7*n)))), "varint size class") {
-						return n
+				n := 10
+				for c := 1; c < 10; c++ {
+					if i.decide(i.tc.Lt(sx.t, i.tc.Const(new(big.Int).Lsh(bigOne, uint(7*c)))), "varint size class") {
+						n = c
+						break
 					}
 				}
-				return 10
+				// the shortcut stands in for the helper's REAL body only as long as that body agrees with it: the
+				// body is executed on concrete probes of the chosen class (both ends, their neighbours, and values
+				// whose low 32 / 16 / 8 bits are all zero or all one); on any disagreement the real body is
+				// interpreted on the symbolic operand instead (the class decisions above stay on the path condition)
+				lo, hi := uint64(0), uint64(1)<<uint(7*n)-1
+				if n > 1 {
+					lo = uint64(1) << uint(7*(n-1))
+				}
+				if n == 10 {
+					hi = ^uint64(0)
+				}
+				agree := true
+				for _, p := range []uint64{lo, hi, lo + 1, hi - 1, lo | (hi &^ 0xffffffff), (hi &^ 0xffffffff) | lo&0xffffffff, hi &^ 0xffff, hi &^ 0xff, lo | 0xffffffff&hi} {
+					if p < lo || p > hi {
+						continue
+					}
+					if r, ok := callSSA(i, caller, callpos, fn, []value{p}, env).(int); !ok || r != n {
+						agree = false
+						break
+					}
+				}
+				if agree {
+					return n
+				}
 			}
 		}
 		if strings.HasSuffix(name, "/internal/conv.UnsafeStrToBytes") {
